@@ -17,6 +17,7 @@ import threading as _threading
 import traceback
 
 CUR = None            # the active Scheduler (one per case)
+_threading.stack_size(512 * 1024)   # hundreds of parked threads per case must fit in RLIMIT_AS
 
 
 class Abort(BaseException):
@@ -321,6 +322,13 @@ class Scheduler:
 
   def sleep_until(self, when):
     return self.quiesce(horizon=when)
+
+  def wake_at(self, when):
+    """Body: sleep like an ordinary thread until virtual time `when`; unlike quiesce the
+    body then competes with the threads whose timers expire at the same instant."""
+    if when > self.now:
+      self.block(lambda: False, when - self.now, what="wake_at(%s)" % when)
+    return self.now
 
   def others_alive(self):
     return [t for t in self.threads if t is not self.body and t.started and not t.finished]
